@@ -612,7 +612,7 @@ def handlerKey (m : String) : Option String :=
 
 /-- class of a request: run the handler skeleton -/
 def classOf (st : St) (r : Req) : String :=
-  match handlerKey r.m with
+  match (handlerKey r.m).bind fnOf with
   | none => "unmodelled"
   | some key =>
     let c := match run prog (oracle st r) 100000 (.invoke key) (fun _ => 0) with
@@ -620,7 +620,7 @@ def classOf (st : St) (r : Req) : String :=
       | .error (.contract f) => if f.startsWith "mark:" then "deep" else "CONTRACT " ++ f
       | .error (.panic k t) => s!"PANIC {k} {t}"
       | .error .fuel => "FUEL"
-      | .error (.unknownFn f) => "UNKNOWN " ++ f
+      | .error (.unknownFn f) => s!"UNKNOWN {f}"
     if (deepSet r.m).contains c then "deep" else c
 
 -- ------------------------------------------------------------------ state effects
